@@ -60,6 +60,7 @@ CATALOGUE = [
     # ---- C19
     ("decoder-splitlines", "C19", "ansi.py", "        lines = terminal_text.split(\"\\n\")\n        if not lines[-1]:\n            lines.pop()\n", "        lines = terminal_text.splitlines() or [\"\"]\n"),
     ("decoder-drops-escapes-before-carriage-return", "C19", "ansi.py", "        line = line.rstrip(\"\\r\")\n        for token in _ansi_tokenize(line):", "        line = line.rstrip(\"\\r\").rsplit(\"\\r\", 1)[-1]\n        for token in _ansi_tokenize(line):"),
+    ("live-frame-laid-out-with-the-prints-options", "C10", "live.py", "            options = console.options\n", "            pass\n"),
     ("decoder-bg-bright-off-by-one", "C19", "ansi.py", "    103: \"on color(11)\",", "    103: \"on color(12)\","),
     ("fileproxy-drops-empty-lines", "C19", "file_proxy.py", "                    lines.append(\"\".join(buffer) + line)", "                    if buffer or line:\n                        lines.append(\"\".join(buffer) + line)"),
     ("fileproxy-flush-markup", "C19", "file_proxy.py", "        if output is not None:\n            self.__console.print(output, markup=False, emoji=False, highlight=False)", "        if output is not None:\n            self.__console.print(output.plain)"),
